@@ -44,8 +44,8 @@ def run(ck):
                "modules (1 per 3 programs), corpus shaders (40 per run; all in the thorough tier), recorded witnesses; distinct by "
                "source; non-trivial = the module has a helper function, a loop or more than one entry point")
     ck.trusted = ["Lean kernel", "axioms: propext, Classical.choice, Quot.sound", "IR contract as transcribed in Sem.IRValid / Sem.IRTyping", "Go harness"]
-    if not ck.prove(["Naga.Props.C09"]):
-        ck.tie_broken("theorems", "Naga.Props.C09 no longer checks", str(ck.proof_failed))
+    if not ck.prove(["Naga.Props.C09", "Naga.Props.RegKey"]):
+        ck.tie_broken("theorems", "Naga.Props.C09 / Naga.Props.RegKey no longer check", str(ck.proof_failed))
     if ck.tier == "thorough":
         ck.leanchecker(["Naga.Props.C09"])
     if not ck.build_harness() or not ck.driver():
@@ -67,7 +67,8 @@ def run(ck):
                     if bad <= 2:
                         ck.violation({"kind": "registry-differs-from-model", "requests": c, "implementation": a, "model": b,
                                       "how": "TypeRegistry.GetOrCreate on this request sequence returns different handles than the "
-                                             "structural model (a key collision merges distinct types, or equal types are not merged): "
+                                             "structural model (a key collision merges distinct types, or equal types are not merged), or "
+                                             "the dedup key it computes is not the key proved injective (Registry.keyOf): "
                                              "two types the module needs are confused / duplicated"}, found_input=True)
             if cases:
                 ck.samples.append({"requests": cases[0][:300], "implementation": impl[0], "model": model[0]})
